@@ -192,7 +192,11 @@ pub fn c02_cases(rng: &mut Rng, tier: &str, out: &mut Out) {
                 }
                 let r = repair_bytes(&built.bytes[..cut], &built.privs, unauth);
                 let oracle = oracle_c02(plan, built, &r, cut >= built.header_len);
-                let (f, args) = if cut % model_stride == 0 || !oracle.is_ok() { model_call(plan, built, cut, unauth) } else { ("", vec![]) };
+                // work package hdrsrc: the model runs on the archive bytes INCLUDING the header (every cut, the
+                // header's too); every 16th case with the model's own ECIES unwrap
+                let (f, args) = if cut % model_stride == 0 || !oracle.is_ok() {
+                    if cfg!(feature = "scaled") { crate::hdrsrc::archive_model_call(plan, built, cut, unauth, &[], cut % 16 == 3) } else { model_call(plan, built, cut, unauth) }
+                } else { ("", vec![]) };
                 let dist_to_end = built.bytes.len() - cut;
                 out.case(&Case {
                     id: format!("c02-a{ai}-cut{cut}-u{}", u8::from(unauth)),
